@@ -300,7 +300,7 @@ class EventDelivery(Engine):
         return st.fixed_dictionaries({
             "stream": st.one_of(st.sampled_from(["bbb", "tears"]), st.builds(lambda sp: {"synth": sp}, synth.stream_specs(max_segments=8, allow_enc=False))),
             "mode": st.sampled_from(["vod", "live", "live"]),
-            "opts": strategies.event_options(),
+            "opts": strategies.event_options(wide_duration=True),
             "clock": strategies.live_clock(),
         })
 
